@@ -271,8 +271,8 @@ def exp_payoffs(data, N, nums, i, opp):
     return out
 
 
-SHAPES_QUICK = [(1,), (3,), (2, 2), (2, 3), (3, 2), (1, 4), (5, 4), (2, 3, 4), (3, 2, 2), (4, 2, 3), (1, 3, 2),
-                (2, 3, 2, 3), (3, 2, 1, 2)]
+SHAPES_QUICK = [(1,), (3,), (2, 2), (2, 3), (3, 2), (1, 4), (3, 1), (1, 1), (5, 4), (2, 3, 4), (3, 2, 2), (4, 2, 3), (1, 3, 2),
+                (2, 3, 1), (2, 3, 2, 3), (3, 2, 1, 2)]
 SHAPES_MORE = [(5,), (3, 5), (5, 5), (4, 1), (2, 2, 2), (5, 3, 2), (3, 4, 5), (2, 2, 3, 4), (3, 2, 4, 2), (2, 1, 2, 3),
                (4, 3, 2, 5), (5, 4, 3, 5), (5, 5, 5, 5)]
 
@@ -714,38 +714,75 @@ def run(ctx):
 
     # ============================================================ 4. non-mutation around dynamics objects (observed only)
     from scipy.stats import norm
-    for _ in range(12 if thorough else 5):
-        nums = list(rng.choice([(2, 2), (3, 2), (2, 3, 2), (3, 3), (2, 2, 3)]))
+    # every position of a one-action player, one-player games (a transposed view of such an array is already contiguous,
+    # so copy-avoiding helpers return the stored array itself), plus ordinary shapes
+    dyn_shapes = [(2, 2), (3, 2), (2, 3, 2), (3,), (1,), (3, 1), (1, 4), (1, 1), (3, 1, 1), (1, 2, 3), (2, 1, 3), (2, 3, 1),
+                  (1, 1, 2), (2, 2, 1, 2), (1, 3, 1, 1)]
+    dyn_shapes += [tuple(rng.choice([1, 1, 2, 3, 4]) for _ in range(rng.randrange(1, 5))) for _ in range(25 if thorough else 4)]
+
+    def quiet(label, arrays, fn, info):
+        """watched call whose own exceptions (unsupported degenerate sizes) are only counted"""
+        try:
+            return W.call(label, arrays, fn, info)
+        except Exception as e:
+            ctx.count("dynamics_call_raised:%s:%s" % (label.split("(")[0], type(e).__name__))
+            return None
+    for nums in dyn_shapes:
+        nums = list(nums)
         N = len(nums)
-        data = rand_payoffs(rng, tuple(nums) + (N,), rng.choice(["int", "dyadic"])).astype(float)
+        data = rand_payoffs(rng, tuple(nums) + (N,), rng.choice(["int", "dyadic"]))
+        if rng.random() < 0.7:
+            data = data.astype(float)
         g = NormalFormGame(data)
+        ctx.count("dynamics_game:" + ("one-player" if N == 1 else "has one-action player" if 1 in nums else "ordinary"))
         GA = game_arrays(g)
         rs = np.random.RandomState(rng.randrange(2**31))
         info = {"nums": nums}
-        ld = W.call("LogitDynamics(g)", GA, lambda: gt.LogitDynamics(g, beta=rng.choice([0.5, 1.0, 4.0])), info)
-        W.call("LogitDynamics.play", GA, lambda: ld.play(num_reps=3, random_state=rs), info)
-        W.call("LogitDynamics.time_series", GA, lambda: ld.time_series(4, random_state=rs), info)
-        fp = W.call("FictitiousPlay(g)", GA, lambda: gt.FictitiousPlay(g), info)
-        W.call("FictitiousPlay.play", GA, lambda: fp.play(num_reps=3, random_state=rs), info)
-        W.call("FictitiousPlay.time_series", GA, lambda: fp.time_series(3, random_state=rs), info)
-        sfp = W.call("StochasticFictitiousPlay(g)", GA, lambda: gt.StochasticFictitiousPlay(g, distribution=norm()), info)
-        W.call("StochasticFictitiousPlay.play", GA, lambda: sfp.play(num_reps=3, random_state=rs), info)
-        n = rng.randrange(2, 5)
+        ld = quiet("LogitDynamics(g)", GA, lambda: gt.LogitDynamics(g, beta=rng.choice([0.5, 1.0, 4.0])), info)
+        if ld is not None:
+            quiet("LogitDynamics.play", GA, lambda: ld.play(num_reps=3, random_state=rs), info)
+            quiet("LogitDynamics.time_series", GA, lambda: ld.time_series(4, random_state=rs), info)
+        fp = quiet("FictitiousPlay(g)", GA, lambda: gt.FictitiousPlay(g), info)
+        if fp is not None:
+            quiet("FictitiousPlay.play", GA, lambda: fp.play(num_reps=3, random_state=rs), info)
+            quiet("FictitiousPlay.time_series", GA, lambda: fp.time_series(3, random_state=rs), info)
+        sfp = quiet("StochasticFictitiousPlay(g)", GA, lambda: gt.StochasticFictitiousPlay(g, distribution=norm()), info)
+        if sfp is not None:
+            quiet("StochasticFictitiousPlay.play", GA, lambda: sfp.play(num_reps=3, random_state=rs), info)
+        # the other watched calls on the same (possibly degenerate) game
+        prof0 = tuple(rng.randrange(k) for k in nums)
+        quiet("NormalFormGame.is_nash", GA, lambda: g.is_nash(prof0), info)
+        quiet("to_gam", GA, lambda: to_gam(g), info)
+        quiet("payoff_profile_array", GA, lambda: g.payoff_profile_array, info)
+        for i, pl in enumerate(g.players):
+            opp = tuple(prof0[(i + 1 + j) % N] for j in range(N - 1))
+            arg = None if N == 1 else (opp[0] if N == 2 else opp)
+            quiet("Player.payoff_vector", GA, lambda: pl.payoff_vector(arg), info)
+            quiet("Player.best_response(payoff_perturbation)", GA,
+                  lambda: pl.best_response(arg, payoff_perturbation=np.array([rng.randrange(-8, 9) / 8.0 for _ in range(nums[i])])), info)
+            quiet("Player.is_dominated", GA, lambda: pl.is_dominated(prof0[i]), info)
+        jdel = rng.randrange(N)
+        quiet("NormalFormGame.delete_action", GA, lambda: g.delete_action(jdel, prof0[jdel]), info)
+        if N >= 2:
+            quiet("PolymatrixGame.from_nf", GA, lambda: PolymatrixGame.from_nf(g, is_polymatrix=False), info)
+        n = rng.randrange(1, 5)
         A = rand_payoffs(rng, (n, n), "dyadic")
         for cls, kw in [(gt.BRD, {}), (gt.KMR, {"epsilon": 0.3}), (gt.SamplingBRD, {"k": 2})]:
-            dyn = W.call(cls.__name__ + "(A, N)", [A], lambda: cls(A, 4, **kw), {"A": A})
-            W.call(cls.__name__ + ".play/time_series", [A, dyn.player.payoff_array],
-                   lambda: (dyn.play(0, np.array([2] + [0] * (n - 2) + [2]) if n > 1 else np.array([4]), random_state=rs),
-                            dyn.time_series(4, random_state=rs)), {"A": A})
+            dyn = quiet(cls.__name__ + "(A, N)", [A], lambda: cls(A, 4, **kw), {"A": A})
+            if dyn is not None:
+                quiet(cls.__name__ + ".play/time_series", [A, dyn.player.payoff_array],
+                      lambda: (dyn.play(0, np.array([2] + [0] * (n - 2) + [2]) if n > 1 else np.array([4]), random_state=rs),
+                               dyn.time_series(4, random_state=rs)), {"A": A})
         adj = np.array([[0, 1, 1], [1, 0, 1], [1, 1, 0]])
-        li = W.call("LocalInteraction(A, adj)", [A], lambda: gt.LocalInteraction(A, adj), {"A": A})
-        W.call("LocalInteraction.play/time_series", [A] + [p.payoff_array for p in li.players],
-               lambda: (li.play(num_reps=2), li.time_series(3, random_state=rs)), {"A": A})
+        li = quiet("LocalInteraction(A, adj)", [A], lambda: gt.LocalInteraction(A, adj), {"A": A})
+        if li is not None:
+            quiet("LocalInteraction.play/time_series", [A] + [p.payoff_array for p in li.players],
+                  lambda: (li.play(num_reps=2), li.time_series(3, random_state=rs)), {"A": A})
         ctx.case(("dynamics", tuple(nums), repr(data.tolist())), nontrivial=True)
     # best_response with payoff_perturbation for players with 0, 1, 2 opponents
     for _ in range(30 if thorough else 12):
         nopp = rng.randrange(0, 3)
-        shp = tuple(rng.randrange(2, 5) for _ in range(nopp + 1))
+        shp = tuple(rng.randrange(1, 5) for _ in range(nopp + 1))
         for dt in (float, np.int64):
             P = rand_payoffs(rng, shp, "int").astype(dt)
             pl = Player(P)
